@@ -1,4 +1,5 @@
 import MsiModel.Expr
+import MsiProofs.Lemmas.ExprRead
 /-
 C19 — printed queries mean what the query objects mean.
 -/
@@ -35,5 +36,39 @@ theorem spellings :
     Gen.textBitXor = " ^ " ∧ Gen.textShl = " << " ∧ Gen.textShr = " >> " ∧ Gen.textNeg = "-" ∧
     Gen.textBitNot = "~" ∧ Gen.textBoolNot = "NOT " ∧ Gen.textAnd = " AND " ∧ Gen.textOr = " OR " := by
   decide
+
+
+/-! ### the reader round trip
+
+`toks e p` is the token form of `format_with_precedence` (same recursion, same regenerated
+precedences); `render_toks` shows it spells exactly the printed text (`Ast.fmt`, which is what
+the correspondence check diffs against the real `to_string()`), and `read_print` shows that a
+precedence-climbing reader using the grammar's ladder — written out independently of the
+generated tables — reads those tokens back as the tree they were printed from, for every tree:
+no bound on depth, every parent/child operator pair on either side. -/
+
+/-- the token form spells the printed text -/
+def render_toks := @MsiProofs.ExprRead.render_toks
+/-- **read (print e) = e** -/
+def read_print := @MsiProofs.ExprRead.readExpr_toks
+/-- the same in any context (used for `WHERE`/`ON` clauses inside queries) -/
+def read_print_in_context := @MsiProofs.ExprRead.parse_toks_in_context
+
+/-- hence the expression read back evaluates identically on every row and names the same
+columns and literals -/
+theorem read_print_eval (e e' : Ast) (h : readExpr (toks e 0) = some e') (r : Row) :
+    e'.eval r = e.eval r ∧ e'.columns = e.columns := by
+  rw [read_print e] at h
+  cases h
+  exact ⟨rfl, rfl⟩
+
+/-- the parenthesisation is needed, not just sufficient: without the parentheses the reader
+returns a different tree (so a printer that drops them is caught by the theorem above) -/
+example : readExpr [.ident ['a'], .op .mul, .ident ['b'], .op .add, .ident ['c']]
+    = some (.bin .add (.bin .mul (.col ['a']) (.col ['b'])) (.col ['c'])) := by decide
+example : toks (.bin .mul (.col ['a']) (.bin .add (.col ['b']) (.col ['c']))) 0
+    = [.ident ['a'], .op .mul, .lp, .ident ['b'], .op .add, .ident ['c'], .rp] := by decide
+example : toks (.bin .eq (.un .boolNot (.col ['a'])) (.col ['b'])) 0
+    = [.lp, .not, .ident ['a'], .rp, .op .eq, .ident ['b']] := by decide
 
 end MsiProofs.C19
